@@ -1,5 +1,6 @@
 import TrionModel.Lemmas.C06Mem
 import TrionModel.Lemmas.C06Inc
+import TrionModel.Lemmas.C06Undef
 import TrionModel.Props.C06Invalid
 /-!
 # C06, third clause — the diagnosed statement may be FOLLOWED BY ANYTHING and PRECEDED by any statements that returned `Ok`
@@ -155,5 +156,45 @@ theorem invalid_in_included {fs : Bytes → Option Bytes} {main : Bytes} {S : As
     (fun d => d = (⟨main, l, c, .dirApply "include" (.includeFailed (Asm.sibling main p))⟩ : Asm.Diag))
     (fun S1 r1 hX => ⟨_, (hst S1 r1 hX).2, rfl⟩) o ho
   exact ⟨hs1, hd1, hd2⟩
+
+/-! ## an undefined name in an instruction operand (`…_partial`: last statement of the main file, quiet prefix) -/
+
+/-- C06t.7  **Undefined name used by an instruction.**  The instruction statement is the last statement of the main file; its
+first attempt (`local = true`) is DEFERRED at the name `n` — `Front.assemble … = (fs1, Deferred n)`: some operand mentions
+`n`, which is not defined (with a table without `.import`-deferred entries `Deferred` can only come from `NoSuchVariable`) —
+and the operands are `plain` (C08: the retry of the tree left behind is the fresh evaluation).  Then `Asm.run` is not a
+success, and every diagnostic is at the statement: the end-of-file retry (`local = false`) reports `NoSuchVariable n`.
+Restriction to the last statement is essential for the position claim: a later statement with a Fatal error skips the
+task loop, so the undefined name would not be reported at all (the run fails with that other diagnostic). -/
+theorem invalid_instruction_undefined_partial {fs : Bytes → Option Bytes} {main : Bytes} {S : Asm.St} {l c : Nat}
+    {tbl : Asm.Table} (hl : S.locals = some tbl) (hnd : Asm.Table.NoDef tbl)
+    {map : Map.Segs} {seg : Seg.Active} {pending : List (Nat × Nat)} (hs : S.seg = ⟨map, some seg, pending⟩)
+    {name : Bytes} {args : Args} {t : Instr} (hm : mnemonic name = some t)
+    (hp : ∀ a ∈ args.toList, Asm.plainArg a = true) {fs1 : Front.St} {n : Bytes}
+    (hdef : Front.assemble ⟨seg.cur, t, 0, args.toList⟩ (Asm.frontEval tbl) true = (fs1, .deferred n))
+    (h : AtLast fs main ⟨l, c, .instruction name args⟩ S) : ReportedAt fs main ⟨l, c, .instruction name args⟩ := by
+  obtain ⟨data, pre, hfs, hpf, hpre, hq⟩ := h
+  have hst : Asm.statement fs Asm.encoder (incOf fs) (envOf main) S ⟨l, c, .instruction name args⟩ =
+      Asm.instruction Asm.encoder (envOf main) S l c name args.toList := by simp [Asm.statement, hs]
+  refine run_last_diag fs main data hfs pre _ hpf S hpre (by rw [hst]; exact Asm.instruction_nf _ _ _ _ _ _ _) ?_
+  intro S1 r1 hX
+  rw [hst] at hX
+  refine ⟨pat_of_eff (pat_quiet hq _ _ _) (Asm.instruction_eff (env := envOf main) _ _ hX) (Asm.instruction_quiet _ _ hX), ?_⟩
+  have h0 : S.errors.length = 0 := by rw [hq.1]; rfl
+  rcases instr_undef_stmt (envOf main) S tbl (by simp) hl hq.2.2 map seg pending hs l c name args.toList t hm fs1 n hdef S1 r1 hX
+    with hE | ⟨rfl, hl1, _, i', hlt1, hi'⟩
+  · left; omega
+  · right
+    refine ⟨rfl, ?_⟩
+    intro tasks S2 r2 htk hloop
+    rw [hlt1] at htk
+    cases htk
+    have hrounds : Asm.rounds = 7 + 1 := rfl
+    rw [hrounds] at hloop
+    refine localLoop_first ?_ 7 .ok S2 r2 hloop
+    intro st' r hrt
+    have := instr_undef_task (envOf main) { S1 with localTasks := some [] } tbl hnd (by simp) hl1 seg.cur t args.toList hp fs1 n hdef
+      i' hi' st' r hrt
+    omega
 
 end Trion.C06
